@@ -56,6 +56,22 @@ pub struct ThreadCase {
     /// requesting world stops at the same time)
     #[serde(default)]
     pub both_stop: bool,
+    /// locks: every worker increments a shared box under a mutex at iterations = 2 (mod tick).
+    /// 0 none, 1 lock-acquire! / lock-release! written out, 2 `lock!` of steel/sync (a thunk under the lock),
+    /// 3 as 1 but with garbage allocated while the lock is held (a collection - a world stop - may then be
+    /// requested by the holder while the other workers are blocked in lock-acquire!), 4 acquire / release
+    /// through `apply`
+    #[serde(default)]
+    pub locks: u8,
+    /// how a worker makes its blocking receive: 0 direct call, 1 `(car (map channel/recv (list in)))`,
+    /// 2 `(apply channel/recv (list in))`, 3 inside a `foldl` callback, 4 `(transduce (list in) (mapping channel/recv) ..)`,
+    /// 5 in tail position of a closure called from a small (natively compiled) helper
+    #[serde(default)]
+    pub hof_block: u8,
+    /// the main thread sleeps this many ms before each feed round, so that its assignment of `g0` (a world stop)
+    /// finds the workers already blocked in their receive - whichever way they make it
+    #[serde(default)]
+    pub feed_pause_ms: u64,
 }
 
 fn program(c: &ThreadCase) -> String {
@@ -76,13 +92,32 @@ fn program(c: &ThreadCase) -> String {
     if c.delay_mask != 0 {
         s.push_str(&format!("(#%verif-delays {} {} {})\n", c.delay_mask, c.delay_every.max(1), c.delay_micros));
     }
+    if c.locks % 5 == 2 {
+        s.push_str("(require \"steel/sync\")\n");
+    }
     s.push_str(if main_stops { "(define g0 0)\n" } else { "(define g0 1000000)\n" });
+    s.push_str("(define shared (box 0))\n(define shared-lock (mutex))\n(define (call1 f x) (f x))\n");
     s.push_str("(define (mk-tree d seed) (if (= d 0) (box seed) (vector (mk-tree (- d 1) (+ seed 1)) (box seed) (list (mk-tree (- d 1) (* seed 2))))))\n");
     s.push_str("(define (checksum t) (cond ((int? t) t) ((mutable-vector? t) (apply + (map checksum (mutable-vector->list t)))) ((pair? t) (apply + (map checksum t))) ((null? t) 0) (else (checksum (unbox t)))))\n");
     s.push_str(&format!(
-        "(define (worker id iters out in feeds)\n  (let loop ((i 0) (acc 0) (fed 0) (keep (mk-tree 3 id)))\n    (if (= i iters)\n        (begin (channel/send out (list 'done id acc @DONE@)) @RESULT@)\n        (begin\n          {}\n          (when (= 0 (modulo i {})) (channel/send out (list 'tick id i)))\n          (if (and (= 1 (modulo i {})) (< fed feeds))\n              (let ((want (channel/recv in))) (channel/send out (list 'saw id want g0)) (loop (+ i 1) (+ acc (* i id)) (+ fed 1) keep))\n              (loop (+ i 1) (+ acc (* i id)) fed keep))))))\n",
+        "(define (worker id iters out in feeds)\n  (let loop ((i 0) (acc 0) (fed 0) (keep (mk-tree 3 id)))\n    (if (= i iters)\n        (begin (channel/send out (list 'done id acc @DONE@)) @RESULT@)\n        (begin\n          {}\n          @LOCK@\n          (when (= 0 (modulo i {})) (channel/send out (list 'tick id i)))\n          (if (and (= 1 (modulo i {})) (< fed feeds))\n              (let ((want @RECV@)) (channel/send out (list 'saw id want g0)) (loop (+ i 1) (+ acc (* i id)) (+ fed 1) keep))\n              (loop (+ i 1) (+ acc (* i id)) fed keep))))))\n",
         garbage, tick, tick
-    ).replace("@DONE@", if c.heap_msgs { "(vector (box (checksum keep)))" } else { "(checksum keep)" })
+    ).replace("@LOCK@", &match c.locks % 5 {
+        0 => String::new(),
+        1 => format!("(when (= 2 (modulo i {})) (let ((guard (lock-acquire! shared-lock))) (set-box! shared (+ 1 (unbox shared))) (lock-release! guard)))", tick),
+        2 => format!("(when (= 2 (modulo i {})) (lock! shared-lock (lambda () (set-box! shared (+ 1 (unbox shared))))))", tick),
+        3 => format!("(when (= 2 (modulo i {})) (let ((guard (lock-acquire! shared-lock))) (let ((old (unbox shared)) (junk (list (vector i (box i)) (box i) (vector i i i)))) (set-box! shared (+ (length junk) -2 old))) (lock-release! guard)))", tick),
+        _ => format!("(when (= 2 (modulo i {})) (let ((guard (apply lock-acquire! (list shared-lock)))) (set-box! shared (+ 1 (unbox shared))) (apply lock-release! (list guard))))", tick),
+    })
+     .replace("@RECV@", match c.hof_block % 6 {
+        0 => "(channel/recv in)",
+        1 => "(car (map channel/recv (list in)))",
+        2 => "(apply channel/recv (list in))",
+        3 => "(foldl (lambda (ch acc) (channel/recv ch)) 0 (list in))",
+        4 => "(car (transduce (list in) (mapping channel/recv) (into-list)))",
+        _ => "(call1 (lambda (ch) (channel/recv ch)) in)",
+    })
+     .replace("@DONE@", if c.heap_msgs { "(vector (box (checksum keep)))" } else { "(checksum keep)" })
      .replace("@RESULT@", if c.heap_msgs { "(list id (box acc))" } else { "(list id acc)" }));
     s.push_str("(define g1 0)\n(define (bump n) (if (= n 0) 'bump-done (begin (set! g1 (+ g1 1)) (bump (- n 1)))))\n");
     if c.updater > 0 {
@@ -98,6 +133,9 @@ fn program(c: &ThreadCase) -> String {
     ));
     // the main thread feeds in ascending order; between feeds it defines globals and allocates
     for f in 1..=c.feeds {
+        if c.feed_pause_ms > 0 {
+            s.push_str(&format!("(time/sleep-ms {})\n", c.feed_pause_ms));
+        }
         if main_stops {
             s.push_str(&format!("(set! g0 {})\n", f));
         }
@@ -140,7 +178,7 @@ fn program(c: &ThreadCase) -> String {
         s.push_str("(define results (map (lambda (r) (list (car r) (unbox (cadr r)))) results))\n");
         s.push_str("(define msgs (map (lambda (m) (if (eq? (car m) 'done) (list 'done (cadr m) (caddr m) (unbox (vector-ref (cadddr m) 0))) m)) msgs))\n");
     }
-    s.push_str("(list results msgs (list churn-sum updater-result g1))\n");
+    s.push_str("(list results msgs (list churn-sum updater-result g1 (unbox shared)))\n");
     s
 }
 
@@ -315,18 +353,21 @@ pub fn check(ctx: &Ctx, ws: &mut Workers, c: &ThreadCase, counting: bool, tag: &
         }
         // thread churn and the updater thread
         {
+            // iterations i < iters with i = 2 (mod tick), per worker
+            let locked_per = if c.locks % 5 == 0 || c.iters <= 2 || c.tick <= 2 { 0 } else { (c.iters - 3) / c.tick.max(2) + 1 };
             let want = format!(
-                "(i:{} {} i:{})",
+                "(i:{} {} i:{} i:{})",
                 if c.churn > 0 { c.churn * (c.churn - 1) } else { 0 },
                 if c.updater > 0 { "y:\"bump-done\"" } else { "y:\"none\"" },
-                c.updater
+                c.updater,
+                locked_per * c.workers.max(1)
             );
             let got3 = match &top[2] {
                 T::L(v) => format!("({})", v.iter().map(|t| if let T::A(a) = t { a.clone() } else { "?".into() }).collect::<Vec<_>>().join(" ")),
                 T::A(a) => a.clone(),
             };
             if got3 != want {
-                return bad("updater-or-churn", format!("(sum of the short-lived threads' results, updater result, final g1) = {}, expected {}", got3, want));
+                return bad("updater-churn-or-lock", format!("(sum of the short-lived threads' results, updater result, final g1, shared counter incremented under the mutex) = {}, expected {}", got3, want));
             }
         }
         let overlaps = st.hooks.get("scan_overlaps").copied().unwrap_or(0);
@@ -360,6 +401,15 @@ pub fn check(ctx: &Ctx, ws: &mut Workers, c: &ThreadCase, counting: bool, tag: &
             if c.defines {
                 ctx.stats.class("main-defines-globals-while-workers-run");
             }
+            if c.locks % 5 != 0 {
+                ctx.stats.class(&format!("mutex-protected-counter:{}", ["", "acquire-release", "lock!-thunk", "allocating-under-the-lock", "acquire-through-apply"][(c.locks % 5) as usize]));
+            }
+            if c.feed_pause_ms > 0 && c.feeds > 0 {
+                ctx.stats.class("world-stop-while-workers-are-blocked-in-a-receive");
+            }
+            if c.hof_block % 6 != 0 {
+                ctx.stats.class(&format!("blocking-receive-through:{}", ["", "map", "apply", "foldl-callback", "transducer", "closure-tail-call-from-a-compiled-helper"][(c.hof_block % 6) as usize]));
+            }
         }
     }
     if counting {
@@ -390,8 +440,8 @@ pub fn case(stress_only: bool) -> impl Strategy<Value = ThreadCase> {
     let base = (1u64..=8, prop::sample::select(vec![50u64, 200, 600, 2000]), prop::sample::select(vec![7u64, 50, 120]), 0u64..6, prop::sample::select(periods(stress_only)), 0u8..4, any::<bool>(), 0u8..4, prop::sample::select(vec![0u64, 0, 0, 0, 50, 300]), prop::sample::select(vec![0u64, 0, 10, 40]), any::<bool>());
     // delay schedule: none in a third of the cases; otherwise a subset of the 8 delay points, firing at every
     // 1st / 3rd / 17th / 101st visit for 0 (yield) / 20 / 200 us
-    let delays = (prop::sample::select(vec![0u64, 1, 1]), 1u64..256, prop::sample::select(vec![1u64, 3, 17, 101]), prop::sample::select(vec![0u64, 20, 200]), any::<bool>());
-    (base, delays).prop_map(|((workers, iters, tick, feeds, period, join_order, defines, garbage, updater, churn, collect_before_join), (with_delays, mask, every, micros, both_stop))| {
+    let delays = (prop::sample::select(vec![0u64, 1, 1]), 1u64..256, prop::sample::select(vec![1u64, 3, 17, 101]), prop::sample::select(vec![0u64, 20, 200]), any::<bool>(), prop::sample::select(vec![0u8, 0, 1, 2, 3, 3, 4]), 0u8..6, prop::sample::select(vec![0u64, 0, 0, 25]));
+    (base, delays).prop_map(|((workers, iters, tick, feeds, period, join_order, defines, garbage, updater, churn, collect_before_join), (with_delays, mask, every, micros, both_stop, locks, hof_block, feed_pause_ms))| {
         // a delay at a point that is visited at every primitive call must be rare or short, or the program takes minutes
         let frequent = mask & 0b0010_0011 != 0; // points 0, 1, 5: every safepoint
         let every = if frequent && micros > 0 { every.max(17) } else { every };
@@ -413,6 +463,9 @@ pub fn case(stress_only: bool) -> impl Strategy<Value = ThreadCase> {
             delay_micros: micros,
             heap_msgs: false,
             both_stop,
+            locks,
+            hof_block,
+            feed_pause_ms,
         }
     })
 }
